@@ -71,7 +71,8 @@ THEOREMS = {
     "C17": _t("C17", "FlooVerif.C17.mkRange_wf", "FlooVerif.C17.mkRange_based", "FlooVerif.C17.setIdx_spec",
               "FlooVerif.C17.setIdx_unbased", "FlooVerif.C17.rejects_contradictory", "FlooVerif.C17.rejects_empty",
               "FlooVerif.C17.rejects_negative", "FlooVerif.C17.rejects_underspecified"),
-    "C18": _t("C18", "FlooVerif.C18.range_product", "FlooVerif.C18.range_error", "FlooVerif.C18.range_empty",
+    "C18": _t("C18Names", "FlooVerif.C18N.name1_inj", "FlooVerif.C18N.name2_inj", "FlooVerif.C18N.split_unique") +
+           _t("C18", "FlooVerif.C18.range_product", "FlooVerif.C18.range_error", "FlooVerif.C18.range_empty",
               "FlooVerif.C18.pyRange_eq_seqIncl", "FlooVerif.C18.idx_spec", "FlooVerif.C18.lvl_spec"),
     "C19": _t("C19", "FlooVerif.C19.jobs_in_range", "FlooVerif.C19.base_addresses", "FlooVerif.C19.finite_ok",
               "FlooVerif.C19.access_len_le"),
